@@ -84,7 +84,9 @@ type monitor struct {
 	evMu sync.Mutex
 	ev   []string // bounded event log
 
-	openedConns sync.Map // gnet.Conn -> *connState: every connection object whose OnOpen has run
+	openedConns sync.Map     // gnet.Conn -> *connState: every connection object whose OnOpen has run
+	inFlight    atomic.Int32 // callbacks (incl. OnTick) currently executing
+	slowTick    time.Duration
 }
 
 func newMonitor(name string, h hooks) *monitor {
@@ -110,7 +112,12 @@ func (m *monitor) tail(n int) []string {
 	return append([]string(nil), m.ev[len(m.ev)-n:]...)
 }
 
-func (m *monitor) noteRunReturned(seq int64) { m.runReturned.Store(seq) }
+func (m *monitor) noteRunReturned(seq int64) {
+	m.runReturned.Store(seq)
+	if n := m.inFlight.Load(); n > 0 {
+		m.violate("C06 Run returned while a callback was still executing", fmt.Sprintf("%d callbacks of the engine were in flight at the moment Run/Stop returned", n))
+	}
+}
 
 func (m *monitor) violate(sig, detail string) {
 	res.Violate(sig, detail, map[string]any{"engine": m.name, "config": m.cfgString(), "events": m.tail(60)})
@@ -127,6 +134,7 @@ func (m *monitor) cfgString() string {
 // always run on the same goroutine.
 func (m *monitor) enter(loop gnet.EventLoop, what string) (gid int64, ok bool) {
 	m.callbacks.Add(1)
+	m.inFlight.Add(1)
 	if rs := m.runReturned.Load(); rs != 0 {
 		m.lateCallbacks.Add(1)
 		m.violate("C06 callback after Run returned kind="+what, fmt.Sprintf("%s ran after Run/Stop had returned (return seq %d)", what, rs))
@@ -164,6 +172,7 @@ func (m *monitor) enter(loop gnet.EventLoop, what string) (gid int64, ok bool) {
 }
 
 func (m *monitor) leave(loop gnet.EventLoop, ok bool) {
+	m.inFlight.Add(-1)
 	if loop == nil || !ok {
 		return
 	}
@@ -331,6 +340,11 @@ func (m *monitor) OnTick() (time.Duration, gnet.Action) {
 		m.violate("C06 callback after Run returned kind=OnTick", fmt.Sprintf("OnTick ran after Run/Stop had returned (return seq %d)", rs))
 	}
 	m.ticks.Add(1)
+	m.inFlight.Add(1)
+	defer m.inFlight.Add(-1)
+	if m.slowTick > 0 {
+		time.Sleep(m.slowTick) // a tick that takes a while, so that shutdown usually meets one in flight
+	}
 	if m.h.onTick != nil {
 		return m.h.onTick()
 	}
